@@ -30,6 +30,7 @@ type Config struct {
 	SampleModels    int
 	Seed            int
 	Redirects       map[string]*ssa.Function // callee full name -> replacement (environment model in the harness)
+	AfterViolation  int                      // stop this many paths after the first counterexample (0 = never)
 	Concrete        map[string]InputValue // non-nil: concrete mode (inputs fixed, real SHA-256)
 	bhCache         sync.Map
 }
@@ -578,6 +579,7 @@ type Summary struct {
 	MaxStepsSeen  int64
 	Traces        []string
 	AllViolations int
+	Truncated     string
 	ModelVectors  [][]InputValue
 }
 
@@ -590,6 +592,7 @@ func Explore(prog *ssa.Program, entry *ssa.Function, cfg *Config) *Summary {
 	active := 0
 	stop := false
 	violLabels := map[string]bool{}
+	firstViolationAt := 0
 
 	worker := func(id int) {
 		tt := NewTermTable()
@@ -693,6 +696,14 @@ func Explore(prog *ssa.Program, entry *ssa.Function, cfg *Config) *Summary {
 			}
 			if cfg.StopOnViolation && len(sum.Violations) > 0 {
 				stop = true
+			}
+			if len(sum.Violations) > 0 && firstViolationAt == 0 {
+				firstViolationAt = sum.Paths
+			}
+			if firstViolationAt > 0 && cfg.AfterViolation > 0 && sum.Paths-firstViolationAt >= cfg.AfterViolation && len(queue) > 0 {
+				// a counterexample is in hand: do not sink the whole budget into the rest of the space
+				stop = true
+				sum.Truncated = fmt.Sprintf("exploration stopped %d paths after the first counterexample (%d work items pending)", cfg.AfterViolation, len(queue))
 			}
 			if cfg.MaxPaths > 0 && sum.Paths >= cfg.MaxPaths && len(queue) > 0 {
 				stop = true
